@@ -14,6 +14,7 @@ if fw.REPO not in sys.path:
 import diskcache  # noqa: E402
 import diskcache.core as core  # noqa: E402
 import diskcache.recipes as recipes  # noqa: E402
+import diskcache.fanout as fanout  # noqa: E402
 
 assert os.path.realpath(os.path.dirname(os.path.dirname(core.__file__))) == os.path.realpath(fw.REPO), \
     'diskcache imported from %s, expected %s' % (core.__file__, fw.REPO)
@@ -51,11 +52,15 @@ class Clock:
 
 
 class Installed:
-    """Context manager installing a Clock into diskcache.core / recipes (and optionally more)."""
+    """Context manager installing a Clock into diskcache.core / recipes / fanout (FanoutCache.expire reads the clock itself and hands the
+    reading to its shards) and optionally more."""
 
     def __init__(self, clock=None, extra_modules=()):
         self.clock = clock or Clock()
-        self.mods = [core, recipes] + list(extra_modules)
+        self.mods = []
+        for m in [core, recipes, fanout] + list(extra_modules):
+            if not any(m is x for x in self.mods):
+                self.mods.append(m)
         self.saved = []
 
     def __enter__(self):
